@@ -4,7 +4,10 @@ pub mod codec_common;
 pub mod c01;
 pub mod c02;
 pub mod c03;
+pub mod c17;
+pub mod c20;
 pub mod l1;
+pub mod c04;
 pub mod c05;
 pub mod c06;
 pub mod c07;
@@ -14,9 +17,12 @@ pub fn get(id: &str, tier: Tier) -> Option<Property> {
         "C01" => c01::property(tier),
         "C02" => c02::property(tier),
         "C03" => c03::property(tier),
+        "C04" => c04::property(tier),
         "C05" => c05::property(tier),
         "C06" => c06::property(tier),
         "C07" => c07::property(tier),
+        "C17" => c17::property(tier),
+        "C20" => c20::property(tier),
         _ => return None,
     })
 }
